@@ -6,6 +6,7 @@ rows = []
 for d in sorted(glob.glob(os.path.join(V, "seeded", "C*-[AB]"))):
     name = os.path.basename(d)
     pid, which = name.split("-")
+    prop = pid[:3]   # C05x1 -> C05 (later waves of sub-agents carry a suffix)
     log = open(os.path.join(d, "run.log")).read() if os.path.exists(os.path.join(d, "run.log")) else ""
     conf = re.search(r"confirmed: (.*)", log)
     checks = re.search(r"checks:(.*)", log)
@@ -26,7 +27,7 @@ for d in sorted(glob.glob(os.path.join(V, "seeded", "C*-[AB]"))):
             res[c] = {"0": "silent", "1": "VIOLATION reported", "2": "harness error"}.get(rc, rc)
     viol = re.findall(r"VIOLATION property=(C\d+) .*? sut=(\S+) predicate=(\S+)", log)
     meta = {
-        "breaks_property": pid,
+        "breaks_property": prop,
         "summary": agent_meta.get("summary", old.get("summary", "")),
         "needs_to_manifest": agent_meta.get("needs_to_manifest", old.get("needs_to_manifest", "")),
         "files": agent_meta.get("files", old.get("files", [])),
@@ -38,7 +39,7 @@ for d in sorted(glob.glob(os.path.join(V, "seeded", "C*-[AB]"))):
     }
     json.dump(meta, open(os.path.join(d, "meta.json"), "w"), indent=1)
     caught = [c for c, r in res.items() if r.startswith("VIOLATION")]
-    rows.append((name, pid, meta["summary"][:110].replace("|", "/"), ", ".join(caught) if caught else "— (not detected)", meta["confirmed_in_scratch_worktree"], meta["note"]))
+    rows.append((name, prop, meta["summary"][:110].replace("|", "/"), ", ".join(caught) if caught else "— (not detected)", meta["confirmed_in_scratch_worktree"], meta["note"]))
 with open(os.path.join(V, "seeded", "RESULTS.md"), "w") as f:
     f.write("# Seeded changes written by independent sub-agents, and the checks that catch them (quick tier)\n\n")
     f.write("| id | property | change | caught by | confirmation | note |\n|---|---|---|---|---|---|\n")
